@@ -148,6 +148,50 @@ def _work_cc(task) -> core.Part:
     return p
 
 
+def _work_long(task) -> core.Part:
+    """Long buffers: windows whose start/length straddle block-size-like thresholds (powers of two, 2047/2048/2049),
+    and long incremental runs (a hidden counter or block logic would not show in 3-octet messages)."""
+    kind, seed = task
+    F = _fcs_cls()
+    p = core.Part()
+    rnd = random.Random(1000 + seed)
+    if kind == "windows":
+        n = 9000
+        bufs = [bytes(rnd.randrange(256) for _ in range(n)), bytes((i * 7 + i // 251) & 0xFF for i in range(n))]
+        starts = (0, 1, 2, 3, 7, 64, 137, 255, 256, 2047, 2048, 2049, 4096)
+        lens = sorted(set([0, 1, 2, 3, 255, 256, 257, 511, 512, 513, 1023, 1024, 1025, 4095, 4096, 4097, 6000, 8191, 8192] + list(range(2044, 2054)) + list(range(4094, 4102))))
+        for d in bufs:
+            pref = [0xFFFF]
+            for b in d:
+                pref.append(R.fcs_step_fast(pref[-1], b))
+            for st in starts:
+                for ln in lens:
+                    if st + ln > n:
+                        continue
+                    got = F.compute_checksum(d, st, ln)
+                    exp = R.fcs16_fast(d[st:st + ln])
+                    p.add("windows")
+                    if got != exp:
+                        p.viol("window", f"window:long:{seed}:{st}:{ln}", f"compute_checksum(<{n} octets>, {st}, {ln}) = {got:#06x}, reference {exp:#06x}",
+                               {"kind": "window", "data": d.hex(), "start": st, "length": ln}, size=ln)
+                        if p.full("window"):
+                            return p
+    else:
+        for pat in (lambda i: rnd.randrange(256), lambda i: 0x7E, lambda i: i & 0xFF):
+            f = F()
+            reg = 0xFFFF
+            for i in range(70000):
+                b = pat(i)
+                ret = f.update(b)
+                reg = R.fcs_step_fast(reg, b)
+                if ret != reg or (i % 997 == 0 and (f.checksum != reg ^ 0xFFFF or f.is_good is not (reg == R.GOOD))):
+                    p.viol("long_run", f"long_run:{i}", f"after {i + 1} octets through update(): register {ret!r}, reference {reg:#06x}", {"kind": "message", "msg": ""}, size=i)
+                    break
+            p.add("messages")
+            p.add("step_pairs_long", 70000)
+    return p
+
+
 def main(run: core.Run) -> int:
     run.rule = ("every (register, octet) pair of the FCS step function is visited exactly once by feeding all 2^24 "
                 "three-octet messages through update(); non-trivial = a message after which is_good is true "
@@ -177,13 +221,15 @@ def main(run: core.Run) -> int:
     if not run.quick:
         tasks += [("three", a) for a in range(256)]
     run.merge(par.pmap(_work_cc, tasks, seed=run.seed))
+    run.merge(par.pmap(_work_long, [("windows", run.seed), ("windows", run.seed + 1), ("runs", run.seed)], seed=run.seed))
     tot = run.total
     tot.sample({"message": "7e0301", "update_returns": [hex(R.fcs_reg(b"\x7e")), hex(R.fcs_reg(b"\x7e\x03")),
                                                          hex(R.fcs_reg(b"\x7e\x03\x01"))]})
     tot.sample({"message+fcs": (b"\x01\x02" + R.fcs_trailer(b"\x01\x02")).hex(), "is_good": True})
     run.bounds = {"step_domain": "2^16 registers x 2^8 octets (complete)", "residue": "all 2^16 registers x 17 trailers",
                   "compute_checksum": "all 2-octet data" + ("" if run.quick else " and all 3-octet data") +
-                  "; every window of every string over {00,01,7E,FF}^<=6 and of 64 seed-derived strings"}
+                  "; every window of every string over {00,01,7E,FF}^<=6 and of 64 seed-derived strings; on four 9000-octet buffers 13 starts x 46 lengths around 2^k and 2047..2049; "
+                  "three 70 000-octet incremental runs"}
     run.assumptions = ["bit-serial reference in mc/ref/fcs.py is RFC 1662 (checked against the X-25 check value 0x906E)",
                        "induction on message length extends the complete step-function check to all byte strings"]
     states = len(tot.d)
